@@ -12,8 +12,8 @@
 //          reference model of the connection list.
 //
 // Case strings (also accepted by --replay):
-//   "a <unit> <cell> <dir> <cf> <kh> <di> <r0> <sk>"        indices into the alphabets below
-//   "b <unit> <cell> <dir> <cf> <kh> <di> <r0> <sk> <mask>" mask bit0 CF, bit1 Kh, bit2 r0
+//   "a <unit> <cell> <dir> <cf> <kh> <di> <r0> <sk> <v>"        indices into the alphabets below (v: explicit value set)
+//   "b <unit> <cell> <dir> <cf> <kh> <di> <r0> <sk> <v> <mask>" mask bit0 CF, bit1 Kh, bit2 r0
 //   "c <regime> e1 e2 ... en"                               last event is the checked transition
 #include "vf.hpp"
 #include <opm/input/eclipse/Deck/Deck.hpp>
@@ -101,9 +101,11 @@ static const std::vector<double>& skins() { static const std::vector<double> s =
 struct In {
     int dir = 2;
     int cf = CF_DEF, kh = KH_DEF; bool di = false, r0 = false; int sk = 0;
-    double CF = 7.5 * si::cP / (si::day * si::bar);      // explicit values, SI
+    int state = 0;                                       // 0 OPEN, 1 SHUT
+    double CF = 7.5 * si::cP / (si::day * si::bar);      // explicit values, SI (value set 0)
     double Kh = 3000.0 * si::mD;
     double Dm = 0.25, R0 = 9.0;
+    void value_set(int v) { if (v == 1) { CF = 400.0 * si::cP / (si::day * si::bar); Kh = 35.0 * si::mD; Dm = 4.5 * si::inch; R0 = 1.75; } }
     double S() const { return skins()[sk]; }
     bool cfE() const { return cf == CF_EXP; }
 };
@@ -117,8 +119,8 @@ static Tok tokens(const In& in, const Unit& u) {
     t.sk = in.sk == 4 ? "1*" : vf::fmt17(in.S());
     return t;
 }
-static std::string compdat_rec(const std::string& well, int i, int j, int k1, int k2, const Tok& t, int dir) {
-    return " '" + well + "' " + std::to_string(i) + " " + std::to_string(j) + " " + std::to_string(k1) + " " + std::to_string(k2) + " OPEN 1* " +
+static std::string compdat_rec(const std::string& well, int i, int j, int k1, int k2, const Tok& t, int dir, int state = 0) {
+    return " '" + well + "' " + std::to_string(i) + " " + std::to_string(j) + " " + std::to_string(k1) + " " + std::to_string(k2) + (state ? " SHUT 1* " : " OPEN 1* ") +
            t.cf + " " + t.di + " " + t.kh + " " + t.sk + " 1* " + std::string(1, "XYZ"[dir]) + " " + t.r0 + " /\n";
 }
 
@@ -240,11 +242,11 @@ static void judge_single(const std::string& cs, const std::string& rec, const Ce
     R->observe(std::string(b));
 }
 
-struct Alpha { int ncell, ncf, nkh, nsk; };
-static Alpha alpha() { return R->thorough() ? Alpha{8, 4, 4, 5} : Alpha{4, 3, 4, 3}; }
+struct Alpha { int ncell, ncf, nkh, nsk, nval; };
+static Alpha alpha() { return R->thorough() ? Alpha{8, 4, 4, 5, 2} : Alpha{4, 4, 4, 5, 2}; }
 
-static std::string case_a(int u, int c, const In& in) {
-    return "a " + std::to_string(u) + " " + std::to_string(c) + " " + std::to_string(in.dir) + " " + std::to_string(in.cf) + " " + std::to_string(in.kh) + " " + std::to_string(in.di) + " " + std::to_string(in.r0) + " " + std::to_string(in.sk);
+static std::string case_a(int u, int c, const In& in, int v) {
+    return "a " + std::to_string(u) + " " + std::to_string(c) + " " + std::to_string(in.dir) + " " + std::to_string(in.cf) + " " + std::to_string(in.kh) + " " + std::to_string(in.di) + " " + std::to_string(in.r0) + " " + std::to_string(in.sk) + " " + std::to_string(v);
 }
 
 // feedback tokens for part b
@@ -256,9 +258,16 @@ static Tok feedback(const Tok& base, const OC& o, const Unit& u, int mask) {
     return t;
 }
 static const char* mask_name(int m) { static const char* n[] = {"", "CF", "Kh", "CF+Kh", "r0", "CF+r0", "Kh+r0", "CF+Kh+r0"}; return n[m & 7]; }
-static void judge_feedback(const std::string& cs, const std::string& rec, int mask, const OC& base, const One& o) {
+// which of CF/Kh/r0 the relation fixes in the record after the feedback
+static const char* feedback_class(const In& in, int mask) {
+    const bool cfE = in.cfE() || (mask & 1), khE = in.kh == KH_EXP || (mask & 2), r0E = in.r0 || (mask & 4);
+    if (cfE && khE) return r0E ? "overdetermined" : "derive-r0";
+    if (cfE && in.kh == KH_ZERO) return "derive-r0";
+    return cfE ? "derive-Kh" : "derive-CF";
+}
+static void judge_feedback(const std::string& cs, const std::string& rec, int mask, const In& in, const OC& base, const One& o) {
     const std::string rp = "{\"case\": " + vf::jstr(cs) + ", \"record\": " + vf::jstr(rec) + "}";
-    const std::string key = std::string("C06:explicit-eq-computed:") + mask_name(mask);
+    const std::string key = std::string("C06:explicit-eq-computed:") + mask_name(mask) + ":" + feedback_class(in, mask);
     if (!o.ok) { R->violation(key + ":rejected", "record with fed-back values not accepted: " + o.err + " [" + rec + "]", rp); return; }
     const OC& c = o.oc;
     std::string bad;
@@ -267,7 +276,7 @@ static void judge_feedback(const std::string& cs, const std::string& rec, int ma
     if (!close(c.r0, base.r0, 1e-9)) bad += " r0";
     if (!close(c.rw, base.rw, 1e-12)) bad += " rw";
     if (c.S != base.S) bad += " skin";
-    if (!bad.empty()) R->violation(key, "entering the computed {" + std::string(mask_name(mask)) + "} explicitly changes" + bad + ": before " + oc_str(base) + " after " + oc_str(c) + " [" + rec + "]", rp);
+    if (!bad.empty()) R->violation(key + ":changes" + [&] { std::string k = bad; for (auto& ch : k) if (ch == ' ') ch = '-'; return k; }(), "entering the computed {" + std::string(mask_name(mask)) + "} explicitly changes" + bad + ": before " + oc_str(base) + " after " + oc_str(c) + " [" + rec + "]", rp);
     char b[160]; std::snprintf(b, sizeof b, "fb%d|%.12g|%.12g|%.12g", mask, c.CF, c.Kh, c.r0);
     R->observe(std::string(b));
 }
@@ -283,9 +292,10 @@ static void parts_ab() {
             if (R->timed_out()) return;
             if (!env) env.emplace(make_env(U[ui], 2, 2, {C[ci], C[ci]}, 2000));
             std::vector<In> ins; std::vector<Tok> toks; std::vector<std::string> recs, names;
-            for (int cf = 0; cf < A.ncf; ++cf) for (int kh = 0; kh < A.nkh; ++kh) for (int di = 0; di < 2; ++di) for (int r0 = 0; r0 < 2; ++r0) for (int sk = 0; sk < A.nsk; ++sk) {
-                In in; in.dir = dir; in.cf = cf; in.kh = kh; in.di = di; in.r0 = r0; in.sk = sk;
-                ins.push_back(in); toks.push_back(tokens(in, U[ui])); recs.push_back(rec_no_well(toks.back(), dir)); names.push_back(case_a(ui, ci, in));
+            for (int v = 0; v < A.nval; ++v) for (int cf = 0; cf < A.ncf; ++cf) for (int kh = 0; kh < A.nkh; ++kh) for (int di = 0; di < 2; ++di) for (int r0 = 0; r0 < 2; ++r0) for (int sk = 0; sk < A.nsk; ++sk) {
+                In in; in.dir = dir; in.cf = cf; in.kh = kh; in.di = di; in.r0 = r0; in.sk = sk; in.value_set(v);
+                if (v > 0 && cf != CF_EXP && kh != KH_EXP && !di && !r0) continue;      // no explicit item: the value set does not show
+                ins.push_back(in); toks.push_back(tokens(in, U[ui])); recs.push_back(rec_no_well(toks.back(), dir)); names.push_back(case_a(ui, ci, in, v));
             }
             R->current("a-batch " + std::to_string(ui) + " " + std::to_string(ci) + " " + std::to_string(dir));
             std::vector<One> base(recs.size());
@@ -293,7 +303,7 @@ static void parts_ab() {
             for (size_t n = 0; n < recs.size(); ++n) {
                 R->evaluations++; R->count("a_cases");
                 judge_single(names[n], recs[n], C[ci], ins[n], base[n]);
-                if (n % 97 == 5 && ui == (int)(group % 4)) R->sample_str(names[n] + "  => " + U[ui].name + " cell " + std::to_string(ci) + ": COMPDAT 'W'" + recs[n].substr(0, recs[n].size() - 1) + "  -> " + (base[n].ok ? oc_str(base[n].oc) : base[n].err));
+                if (n % 97 == 5 && ui == (int)(group % 4) && R->samples.size() < 3) R->sample_str(names[n] + "  => " + U[ui].name + " cell " + std::to_string(ci) + ": COMPDAT 'W'" + recs[n].substr(0, recs[n].size() - 1) + "  -> " + (base[n].ok ? oc_str(base[n].oc) : base[n].err));
             }
             // every case once more alone in its own deck: the batching must not matter
             for (size_t n = 0; n < recs.size(); ++n) {
@@ -315,15 +325,15 @@ static void parts_ab() {
             }
             R->current("b-batch " + std::to_string(ui) + " " + std::to_string(ci) + " " + std::to_string(dir));
             std::vector<One> fb(frecs.size());
-            for (size_t lo = 0; lo < frecs.size(); lo += 504) build_records(*env, frecs, lo, std::min(frecs.size(), lo + 504), fb);
-            for (size_t n = 0; n < frecs.size(); ++n) { R->evaluations++; R->count("b_cases"); judge_feedback(fnames[n], frecs[n], fmask[n], base[fbase[n]].oc, fb[n]); }
+            for (size_t lo = 0; lo < frecs.size(); lo += 560) build_records(*env, frecs, lo, std::min(frecs.size(), lo + 560), fb);
+            for (size_t n = 0; n < frecs.size(); ++n) { R->evaluations++; R->count("b_cases"); judge_feedback(fnames[n], frecs[n], fmask[n], ins[fbase[n]], base[fbase[n]].oc, fb[n]); }
         }
     }
 }
 
 static void replay_ab(const std::string& cs) {
-    std::istringstream ss(cs); std::string part; int ui, ci; In in; int di, r0, mask = 0;
-    ss >> part >> ui >> ci >> in.dir >> in.cf >> in.kh >> di >> r0 >> in.sk; in.di = di; in.r0 = r0; if (part == "b") ss >> mask;
+    std::istringstream ss(cs); std::string part; int ui, ci; In in; int di, r0, v = 0, mask = 0;
+    ss >> part >> ui >> ci >> in.dir >> in.cf >> in.kh >> di >> r0 >> in.sk >> v; in.di = di; in.r0 = r0; in.value_set(v); if (part == "b") ss >> mask;
     const auto& U = units(); const auto& C = cells();
     Env env = make_env(U[ui], 2, 2, {C[ci], C[ci]}, 2000);
     Tok t = tokens(in, U[ui]);
@@ -334,7 +344,7 @@ static void replay_ab(const std::string& cs) {
     if (!o[0].ok) return;
     std::vector<std::string> fr = {rec_no_well(feedback(t, o[0].oc, U[ui], mask), in.dir)}; std::vector<One> f(1);
     build_records(env, fr, 0, 1, f);
-    judge_feedback(cs, fr[0], mask, o[0].oc, f[0]);
+    judge_feedback(cs, fr[0], mask, in, o[0].oc, f[0]);
     std::fprintf(stderr, "%s -> %s\n%s -> %s\n", recs[0].c_str(), oc_str(o[0].oc).c_str(), fr[0].c_str(), f[0].ok ? oc_str(f[0].oc).c_str() : f[0].err.c_str());
 }
 
@@ -363,11 +373,14 @@ static std::vector<Ev> make_events() {
     { Ev e{"COMPDAT_B", E_COMPDAT}; e.k1 = e.k2 = 2; e.in.di = true; e.in.dir = 1; v.push_back(e); }
     { Ev e{"COMPDAT_A_newCF", E_COMPDAT}; e.k1 = e.k2 = 0; e.in.di = true; e.in.cf = CF_EXP; e.in.CF = 12.5 * si::cP / (si::day * si::bar); v.push_back(e); }
     { Ev e{"COMPDAT_K1-3", E_COMPDAT}; e.k1 = 0; e.k2 = 2; e.in.di = true; e.in.Dm = 0.3; e.in.sk = 1; v.push_back(e); }
+    { Ev e{"COMPDAT_C_shut", E_COMPDAT}; e.k1 = e.k2 = 1; e.in.dir = 0; e.in.kh = KH_EXP; e.in.Kh = 900.0 * si::mD; e.in.state = 1; v.push_back(e); }
     { Ev e{"WPIMULT_well", E_WPI_ALL}; e.factor = 2.0; v.push_back(e); }
+    { Ev e{"WPIMULT_well_b", E_WPI_ALL}; e.factor = 0.25; v.push_back(e); }
     { Ev e{"WPIMULT_ijk", E_WPI_IJK}; e.k1 = 0; e.factor = 3.0; v.push_back(e); }
     { Ev e{"WPIMULT_compl", E_WPI_COMPL}; e.c1 = 2; e.c2 = 3; e.factor = 0.5; v.push_back(e); }
     { Ev e{"WELOPEN_shutB", E_WELOPEN_K}; e.k1 = 2; e.state = 1; v.push_back(e); }
     { Ev e{"WELOPEN_openB", E_WELOPEN_K}; e.k1 = 2; e.state = 0; v.push_back(e); }
+    { Ev e{"WELOPEN_openAll", E_WELOPEN_K}; e.k1 = -1; e.state = 0; v.push_back(e); }
     { Ev e{"WELOPEN_shutC2", E_WELOPEN_COMPL}; e.c1 = 2; e.c2 = 2; e.state = 1; v.push_back(e); }
     { Ev e{"COMPLUMP", E_COMPLUMP}; e.k1 = 0; e.k2 = 1; e.c1 = 2; v.push_back(e); }
     return v;
@@ -383,7 +396,7 @@ static const std::vector<Regime>& regimes() {
 static std::string render_event(const Ev& e, const Unit& u, int& month, int& year) {
     switch (e.type) {
     case E_DATES: { static const char* mn[] = {"JAN", "FEB", "MAR", "APR", "MAY", "JUN", "JUL", "AUG", "SEP", "OCT", "NOV", "DEC"}; if (++month > 12) { month = 1; ++year; } return std::string("DATES\n 1 ") + mn[month - 1] + " " + std::to_string(year) + " /\n/\n"; }
-    case E_COMPDAT: return "COMPDAT\n" + compdat_rec("W", 1, 1, e.k1 + 1, e.k2 + 1, tokens(e.in, u), e.in.dir) + "/\n";
+    case E_COMPDAT: return "COMPDAT\n" + compdat_rec("W", 1, 1, e.k1 + 1, e.k2 + 1, tokens(e.in, u), e.in.dir, e.in.state) + "/\n";
     case E_WPI_ALL: return "WPIMULT\n 'W' " + vf::fmt17(e.factor) + " /\n/\n";
     case E_WPI_IJK: return "WPIMULT\n 'W' " + vf::fmt17(e.factor) + " 1 1 " + std::to_string(e.k1 + 1) + " /\n/\n";
     case E_WPI_COMPL: return "WPIMULT\n 'W' " + vf::fmt17(e.factor) + " 3* " + std::to_string(e.c1) + " " + std::to_string(e.c2) + " /\n/\n";
@@ -430,8 +443,8 @@ static RefState simulate(const Regime& rg, const std::vector<int>& h) {
             for (int k = e.k1; k <= e.k2; ++k) {
                 const Ref r = reference(layers()[k], e.in);
                 auto it = std::find_if(st.conns.begin(), st.conns.end(), [&](const RC& c) { return c.k == k; });
-                if (it == st.conns.end()) { const int n0 = (int)st.conns.size(); st.conns.push_back({k, n0 + 1, (std::size_t)n0, r.CF, r.Kh, r.r0, r.rw, r.S, 0, e.in.dir}); }
-                else { *it = RC{k, it->complnum, it->sort, r.CF, r.Kh, r.r0, r.rw, r.S, 0, e.in.dir}; }
+                if (it == st.conns.end()) { const int n0 = (int)st.conns.size(); st.conns.push_back({k, n0 + 1, (std::size_t)n0, r.CF, r.Kh, r.r0, r.rw, r.S, e.in.state, e.in.dir}); }
+                else { *it = RC{k, it->complnum, it->sort, r.CF, r.Kh, r.r0, r.rw, r.S, e.in.state, e.in.dir}; }
                 st.targeted_k.push_back(k);
             }
             if (!rg.input_order) std::stable_sort(st.conns.begin(), st.conns.end(), [](const RC& a, const RC& b) { return a.k < b.k; });   // TRACK in one column = by depth
@@ -440,7 +453,7 @@ static RefState simulate(const Regime& rg, const std::vector<int>& h) {
         case E_WPI_ALL: if (pending && *pending != e.factor) st.deferral_matters = true; pending = e.factor; st.last_all = true; break;
         case E_WPI_IJK: for (auto& c : st.conns) if (c.k == e.k1) { c.CF *= e.factor; st.targeted_k.push_back(c.k); } break;
         case E_WPI_COMPL: for (auto& c : st.conns) if (c.complnum >= e.c1 && c.complnum <= e.c2) { c.CF *= e.factor; st.targeted_k.push_back(c.k); } break;
-        case E_WELOPEN_K: for (auto& c : st.conns) if (c.k == e.k1) { c.state = e.state; st.targeted_k.push_back(c.k); } break;
+        case E_WELOPEN_K: for (auto& c : st.conns) if (e.k1 < 0 || c.k == e.k1) { c.state = e.state; st.targeted_k.push_back(c.k); } break;
         case E_WELOPEN_COMPL: for (auto& c : st.conns) if (c.complnum >= e.c1 && c.complnum <= e.c2) { c.state = e.state; st.targeted_k.push_back(c.k); } break;
         case E_COMPLUMP: for (auto& c : st.conns) if (c.k >= e.k1 && c.k <= e.k2) { c.complnum = e.c1; st.targeted_k.push_back(c.k); } break;
         }
@@ -455,7 +468,8 @@ static bool targets(const Ev& e, const OC& c) {
     case E_DATES: return false;
     case E_COMPDAT: case E_COMPLUMP: return c.i == 0 && c.j == 0 && c.k >= e.k1 && c.k <= e.k2;
     case E_WPI_ALL: return true;
-    case E_WPI_IJK: case E_WELOPEN_K: return c.i == 0 && c.j == 0 && c.k == e.k1;
+    case E_WPI_IJK: return c.i == 0 && c.j == 0 && c.k == e.k1;
+    case E_WELOPEN_K: return e.k1 < 0 || c.k == e.k1;
     case E_WPI_COMPL: case E_WELOPEN_COMPL: return c.complnum >= e.c1 && c.complnum <= e.c2;
     }
     return false;
@@ -487,7 +501,28 @@ static void check_transition(const Regime& rg, const std::vector<int>& h2, const
     if (keptC != keptP) R->violation(pre + "untargeted-order", "relative order of the untargeted connections changes" + ctx, rp);
     // ---- agreement with the reference model (targeted and new connections, count, order)
     const RefState ref = simulate(rg, h2);
+    const RefState refP = simulate(rg, std::vector<int>(h2.begin(), h2.end() - 1));
+    // a field is judged in this transition only if the parent state agreed with the parent reference on it:
+    // a wrong value is reported once, where it arises, not again after every later event
+    auto parent_agreed = [&](int k, int field, double tol) {
+        auto lp = std::find_if(P.conns.begin(), P.conns.end(), [&](const OC& c) { return c.k == k; });
+        auto rpp = std::find_if(refP.conns.begin(), refP.conns.end(), [&](const RC& c) { return c.k == k; });
+        if (lp == P.conns.end() || rpp == refP.conns.end()) return lp == P.conns.end() && rpp == refP.conns.end();
+        if (lp->complnum != rpp->complnum) return false;        // completion numbers drive the targeting of later events
+        switch (field) {
+        case 0: return true;
+        case 1: return lp->sort == rpp->sort;
+        case 2: return lp->state == rpp->state;
+        case 3: return close(lp->CF, rpp->CF, tol);
+        case 4: return close(lp->Kh, rpp->Kh, tol);
+        case 5: return close(lp->rw, rpp->rw, 1e-12) && close(lp->r0, rpp->r0, tol) && close(lp->S, rpp->S, 1e-12);
+        default: return lp->dir == rpp->dir;
+        }
+    };
     if (ref.deferral_matters) R->count("c_transitions_depending_on_deferred_whole_well_wpimult");
+    bool parent_list_ok = refP.conns.size() == P.conns.size();
+    for (size_t n = 0; parent_list_ok && n < P.conns.size(); ++n) parent_list_ok = P.conns[n].k == refP.conns[n].k;
+    if (!parent_list_ok) { R->count("c_mismatch_inherited_from_parent_state"); return; }
     if (ref.conns.size() != C.conns.size()) { R->violation(pre + "connection-count", "library has " + std::to_string(C.conns.size()) + " connections, reference " + std::to_string(ref.conns.size()) + ctx, rp); return; }
     for (size_t n = 0; n < ref.conns.size(); ++n) {
         const RC& r = ref.conns[n]; const OC& c = C.conns[n];
@@ -495,23 +530,28 @@ static void check_transition(const Regime& rg, const std::vector<int>& h2, const
         const bool isnew = std::none_of(P.conns.begin(), P.conns.end(), [&](const OC& p) { return p.k == c.k; });
         const bool tg = ref.last_all || std::find(ref.targeted_k.begin(), ref.targeted_k.end(), r.k) != ref.targeted_k.end();
         const std::string who = isnew ? "new-" : tg ? "targeted-" : "other-";
-        auto diff = [&](const char* what, const std::string& exp) { R->violation(pre + who + what, std::string(what) + " of " + oc_str(c) + " differs from the reference (" + exp + ")" + ctx, rp); };
-        if (c.complnum != r.complnum) diff("complnum", std::to_string(r.complnum));
-        if (c.sort != r.sort) diff("sort_value", std::to_string(r.sort));
-        if (c.state != r.state) diff("state", std::to_string(r.state));
-        if (!close(c.CF, r.CF, e.type == E_COMPDAT ? 1e-10 : 1e-12)) diff("CF", vf::fmt17(r.CF));
-        if (!close(c.Kh, r.Kh, 1e-10)) diff("Kh", vf::fmt17(r.Kh));
-        if (!close(c.rw, r.rw, 1e-12) || !close(c.r0, r.r0, 1e-10) || !close(c.S, r.S, 1e-12)) diff("r0-rw-skin", vf::fmt17(r.r0) + "/" + vf::fmt17(r.rw) + "/" + vf::fmt17(r.S));
-        if (c.dir != r.dir) diff("dir", std::to_string(r.dir));
+        auto diff = [&](int field, const char* what, const std::string& exp) {
+            if (!parent_agreed(r.k, field, 1e-10)) { R->count("c_mismatch_inherited_from_parent_state"); return; }
+            if (!isnew && !tg) { R->count("c_untargeted_mismatch_left_to_frame_oracle"); return; }   // reported bit-exactly by the frame condition above
+            R->violation(pre + who + what, std::string(what) + " of " + oc_str(c) + " differs from the reference (" + exp + ")" + ctx, rp);
+        };
+        if (c.complnum != r.complnum) diff(0, "complnum", std::to_string(r.complnum));
+        if (c.sort != r.sort) diff(1, "sort_value", std::to_string(r.sort));
+        if (c.state != r.state) diff(2, "state", std::to_string(r.state));
+        if (!close(c.CF, r.CF, 1e-10)) diff(3, "CF", vf::fmt17(r.CF));
+        if (!close(c.Kh, r.Kh, 1e-10)) diff(4, "Kh", vf::fmt17(r.Kh));
+        if (!close(c.rw, r.rw, 1e-12) || !close(c.r0, r.r0, 1e-10) || !close(c.S, r.S, 1e-12)) diff(5, "r0-rw-skin", vf::fmt17(r.r0) + "/" + vf::fmt17(r.rw) + "/" + vf::fmt17(r.S));
+        if (c.dir != r.dir) diff(6, "dir", std::to_string(r.dir));
     }
     std::string key;
     for (const auto& c : C.conns) { char b[120]; std::snprintf(b, sizeof b, "%d:%d:%zu:%d:%.12g:%.12g|", c.k, c.complnum, c.sort, c.state, c.CF, c.Kh); key += b; }
     R->observe(std::string(rg.name) + key);
 }
 
+static long long g_viol_before_c = 0;
 static void dfs(const Env& env, const Regime& rg, std::vector<int>& h, const Built& P, int maxdepth) {
     if ((int)h.size() >= maxdepth || R->timed_out()) return;
-    if (R->counters["violations_total"] > 400) { R->exhaustive = false; R->cap_note = "part c stopped after >400 violation instances; "; return; }
+    if (R->counters["violations_total"] - g_viol_before_c > 400) { R->exhaustive = false; R->cap_note = "part c stopped after >400 violation instances; "; return; }
     const int depth = (int)h.size();
     for (int e = 0; e < (int)g_ev.size(); ++e) {
         if (depth == 1 && !R->mine()) continue;                       // shard on the second event
@@ -532,15 +572,18 @@ static void dfs(const Env& env, const Regime& rg, std::vector<int>& h, const Bui
     }
 }
 
+// regime r is explored to depth c_depth(r)
+static int c_nreg() { return R->thorough() ? (int)regimes().size() : 2; }
+static int c_depth(int) { return R->thorough() ? 5 : 4; }
 static void part_c() {
-    const int depth = R->thorough() ? 5 : 4;
-    const int nreg = R->thorough() ? (int)regimes().size() : 2;
+    const int nreg = c_nreg();
+    g_viol_before_c = R->counters["violations_total"];
     for (int r = 0; r < nreg; ++r) {
         const Regime& rg = regimes()[r];
         Env env = make_env(units()[rg.unit], 2, 2, layers(), 4);
         std::vector<int> h; Built P = build_hist(env, rg, h);
         if (!P.ok) { R->violation("C06:harness:base-deck", "base deck of part c does not build: " + P.err); return; }
-        dfs(env, rg, h, P, depth);
+        dfs(env, rg, h, P, c_depth(r));
     }
 }
 
@@ -565,13 +608,12 @@ int main(int argc, char** argv) {
     Parser parser; g_parser = &parser; g_python = std::make_shared<Python>();
     g_ev = make_events();
     const Alpha A = alpha();
-    const int depth = run.thorough() ? 5 : 4, nreg = run.thorough() ? (int)regimes().size() : 2;
+    std::string depths; for (int r = 0; r < c_nreg(); ++r) depths += std::string(r ? ", " : "") + regimes()[r].name + ":" + std::to_string(c_depth(r));
     run.rule = "a: complete product dir{X,Y,Z} x CF{" + std::string(A.ncf == 4 ? "1*,0,explicit,-1" : "1*,0,explicit") + "} x Kh{1*,-1,0,explicit} x diameter{1*,explicit} x r0{1*,explicit} x skin(" + std::to_string(A.nsk) +
-               " values incl. negative) x " + std::to_string(A.ncell) + " anisotropic cells x {METRIC,FIELD,LAB,PVT-M}, each record in its own well, judged batched and again alone in its own deck; oracle: independent Peaceman calculation in SI with own exact unit factors: "
+               " values incl. negative and 1*) x 2 sets of explicit values x " + std::to_string(A.ncell) + " anisotropic cells x {METRIC,FIELD,LAB,PVT-M}, each record in its own well, judged batched and again alone in its own deck; oracle: independent Peaceman calculation in SI with own exact unit factors: "
                "stored CF(ln(r0/rw)+S)=2piKh to 1e-10, every explicit item stored as given, every defaulted item equal to the cell's Peaceman value (1e-10); "
                "b: the stored CF/Kh/r0 of every case of a fed back (17 digits, deck units) in all 7 subsets, nothing changes (1e-9); "
-               "c: all histories over " + std::to_string(g_ev.size()) + " events on one well to depth " + std::to_string(depth) + " in " + std::to_string(nreg) +
-               " regimes (COMPORD TRACK/INPUT x unit system); per transition: frame condition on the library's own parent state (untargeted connections keep relative order, complnum, sort_value, CF, Kh, r0, rw, skin, state bit-exactly) "
+               "c: all histories over " + std::to_string(g_ev.size()) + " events on one well, regimes COMPORD TRACK/INPUT x unit system with depth {" + depths + "}; per transition: frame condition on the library's own parent state (untargeted connections keep relative order, complnum, sort_value, CF, Kh, r0, rw, skin, state bit-exactly) "
                "and agreement of the whole connection list with a reference model (new CF by the Peaceman oracle, CF x factor, whole-well WPIMULT = last record of the report step applied at the end of the step, cumulative across steps)";
     run.assumptions = {
         "cells are chosen with Peaceman r0 > rw in every direction and the explicit r0 (9 m) > rw: the clamp ln(r0/min(rw,r0)) in peacemanDenominator is outside the alphabet; a back-computed r0 (CF and Kh both fixed) may be below rw, there the relation is checked with the plain logarithm",
